@@ -1,5 +1,200 @@
+//! C12 — output options do not perturb the integration (bitwise metamorphic monitor).
+
+use super::common::*;
 use crate::ctx::{Ctx, Meta};
+use crate::probe::*;
 use crate::report::Report;
+use crate::rng::Rng;
+use crate::util::{bits_eq, bits_eq2, par_for};
+use ivp::prelude::*;
+use serde_json::json;
+
+struct Obs {
+    hash: u64,
+    n_ode: u64,
+    status: String,
+    counters: [usize; 6],
+    t: Vec<f64>,
+    y: Vec<Vec<f64>>,
+    t_events: Vec<Vec<f64>>,
+    sol_end: Option<Vec<f64>>,
+    sol_mid: Option<Vec<f64>>,
+}
+
 pub fn run(ctx: &Ctx) -> (Report, Meta) {
-    (Report::new(&ctx.prop), Meta::new("not built yet"))
+    let meta = Meta::new(
+        "for each base configuration (bounded problem x 6 methods x tolerances x direction x optional first_step/max_step/max_steps x analytic/FD Jacobian) the 8 subsets of {t_eval, dense_output, non-terminal events} are run plus one repetition; compared bitwise: hash of the complete ode call log (t and y bit patterns of every stepper evaluation, accepted and rejected attempts), evaluation counts, all step statistics, status, the reported accepted-step sequence (runs without t_eval), requested-time values (runs with t_eval), sol(t) of dense runs; non-trivial = base configuration with >= 3 accepted steps (distinct by scenario hash)",
+    )
+    .assume("64-bit FNV hash over all bit patterns of the ode log; collisions negligible")
+    .floor("option_sets_compared", 2000)
+    .floor("base_configs_with_rejections", 30);
+    let g = GenOpts {
+        allow_first_step: true,
+        allow_max_step: true,
+        allow_max_steps: true,
+        ..Default::default()
+    };
+    let n = ctx.size(500, 25_000);
+    let rep = par_for(n, "C12", |i, rep| {
+        let case_id = format!("base/{}", i);
+        if !ctx.want(&case_id) {
+            return;
+        }
+        let mut rng = Rng::derive(ctx.seed, 12, i as u64);
+        let (prob, base) = gen_case(&mut rng, &g);
+        let m = mname(base.method);
+        let nst = base.y0.len();
+        // requested times and events used by the subsets
+        let k = 2 + rng.below(9);
+        let mut te: Vec<f64> = (0..k).map(|_| base.x0 + (base.xend - base.x0) * rng.f()).collect();
+        te.push(base.xend);
+        te.sort_by(|a, b| a.partial_cmp(b).unwrap());
+        if base.dir() < 0.0 {
+            te.reverse();
+        }
+        te.dedup();
+        let nev = 1 + rng.below(3);
+        let evs: Vec<EvSpec> = (0..nev).map(|_| random_event(&mut rng, nst, base.x0, base.xend)).collect();
+        let tmid = base.x0 + (base.xend - base.x0) * rng.range(0.1, 0.9);
+        let run_one = |mask: usize| -> Result<Obs, String> {
+            let mut s = base.clone();
+            s.t_eval = if mask & 1 != 0 { Some(te.clone()) } else { None };
+            s.dense = mask & 2 != 0;
+            s.events = if mask & 4 != 0 { evs.clone() } else { Vec::new() };
+            let r = run_solve(&prob, &s, false, false);
+            match r.out {
+                Outcome::Ok(sol) => {
+                    let (sol_end, sol_mid) = if s.dense {
+                        (sol.t.last().and_then(|&tl| sol.sol(tl).ok()), sol.sol(tmid).ok())
+                    } else {
+                        (None, None)
+                    };
+                    Ok(Obs {
+                        hash: r.log.ode_hash,
+                        n_ode: r.log.n_ode,
+                        status: format!("{:?}", sol.status),
+                        counters: [sol.nfev, sol.njev, sol.nlu, sol.nstep, sol.naccpt, sol.nrejct],
+                        t: sol.t,
+                        y: sol.y,
+                        t_events: sol.t_events,
+                        sol_end,
+                        sol_mid,
+                    })
+                }
+                o => Err(o.tag()),
+            }
+        };
+        let plain = match run_one(0) {
+            Ok(o) => o,
+            Err(e) => {
+                if e.starts_with("Panic") {
+                    rep.violate(&format!("C12/no_panic/{}/plain", m), e, &case_id, base.describe(&prob));
+                } else {
+                    rep.inconclusive("plain_run_not_ok");
+                }
+                return;
+            }
+        };
+        rep.eval();
+        if plain.counters[4] >= 3 {
+            rep.nontrivial(scn_hash(&base, &prob));
+        }
+        if plain.counters[5] > 0 {
+            rep.count("base_configs_with_rejections", 1);
+        }
+        let names = ["plain", "t_eval", "dense", "t_eval+dense", "events", "t_eval+events", "dense+events", "t_eval+dense+events"];
+        let mut obs: Vec<Option<Obs>> = Vec::new();
+        obs.push(None);
+        for mask in 1..8usize {
+            rep.eval();
+            match run_one(mask) {
+                Err(e) => {
+                    rep.violate(&format!("C12/outcome_differs/{}/{}", m, names[mask]), format!("plain run returned {} but option set {} gave {}", plain.status, names[mask], e), &case_id, base.describe(&prob));
+                    obs.push(None);
+                }
+                Ok(o) => {
+                    rep.count("option_sets_compared", 1);
+                    let mut case = base.describe(&prob);
+                    case["option_set"] = json!(names[mask]);
+                    case["t_eval_used"] = json!(te);
+                    if o.hash != plain.hash || o.n_ode != plain.n_ode {
+                        rep.violate(
+                            &format!("C12/ode_log_differs/{}/{}", m, names[mask]),
+                            format!("the sequence of right-hand-side calls differs from the plain run ({} vs {} calls, hash {:x} vs {:x})", o.n_ode, plain.n_ode, o.hash, plain.hash),
+                            &case_id,
+                            case.clone(),
+                        );
+                    }
+                    if o.counters != plain.counters {
+                        rep.violate(&format!("C12/statistics_differ/{}/{}", m, names[mask]), format!("[nfev,njev,nlu,nstep,naccpt,nrejct] = {:?} vs plain {:?}", o.counters, plain.counters), &case_id, case.clone());
+                    }
+                    if o.status != plain.status {
+                        rep.violate(&format!("C12/status_differs/{}/{}", m, names[mask]), format!("status {} vs plain {}", o.status, plain.status), &case_id, case.clone());
+                    }
+                    if mask & 1 == 0 {
+                        // accepted step sequence and state at every accepted step
+                        if !bits_eq(&o.t, &plain.t) || !bits_eq2(&o.y, &plain.y) {
+                            rep.violate(&format!("C12/accepted_steps_differ/{}/{}", m, names[mask]), "reported accepted steps (t, y) differ bitwise from the plain run".into(), &case_id, case.clone());
+                        }
+                    }
+                    obs.push(Some(o));
+                }
+            }
+        }
+        // t_eval values must not depend on dense/events
+        if let Some(Some(a)) = obs.get(1) {
+            for mask in [3usize, 5, 7] {
+                if let Some(Some(b)) = obs.get(mask) {
+                    if !bits_eq(&a.t, &b.t) || !bits_eq2(&a.y, &b.y) {
+                        rep.violate(&format!("C12/teval_values_differ/{}/{}", m, names[mask]), "values at the requested times differ bitwise between option sets".into(), &case_id, base.describe(&prob));
+                    }
+                }
+            }
+        }
+        // dense solutions identical across option sets; final state consistent
+        if let Some(Some(a)) = obs.get(2) {
+            for mask in [3usize, 6, 7] {
+                if let Some(Some(b)) = obs.get(mask) {
+                    if let (Some(x), Some(y)) = (&a.sol_mid, &b.sol_mid) {
+                        if !bits_eq(x, y) {
+                            rep.violate(&format!("C12/dense_values_differ/{}/{}", m, names[mask]), "sol(t) differs bitwise between option sets".into(), &case_id, base.describe(&prob));
+                        }
+                    }
+                }
+            }
+        }
+        // events identical with/without t_eval/dense
+        if let Some(Some(a)) = obs.get(4) {
+            for mask in [5usize, 6, 7] {
+                if let Some(Some(b)) = obs.get(mask) {
+                    if a.t_events.len() != b.t_events.len() || a.t_events.iter().zip(&b.t_events).any(|(p, q)| !bits_eq(p, q)) {
+                        rep.violate(&format!("C12/events_differ/{}/{}", m, names[mask]), "event times differ bitwise between option sets".into(), &case_id, base.describe(&prob));
+                    }
+                }
+            }
+        }
+        // repetition
+        if let Ok(again) = run_one(7) {
+            rep.count("repetitions_compared", 1);
+            if let Some(Some(b)) = obs.get(7) {
+                let same = again.hash == b.hash
+                    && again.counters == b.counters
+                    && bits_eq(&again.t, &b.t)
+                    && bits_eq2(&again.y, &b.y)
+                    && again.t_events.iter().zip(&b.t_events).all(|(p, q)| bits_eq(p, q))
+                    && again.sol_end.as_ref().map(|v| hash(v)) == b.sol_end.as_ref().map(|v| hash(v));
+                if !same {
+                    rep.violate(&format!("C12/repetition_differs/{}/all", m), "repeating the same call gave different results".into(), &case_id, base.describe(&prob));
+                }
+            }
+        }
+        if i % 211 == 0 {
+            rep.sample(json!({"base": base.describe(&prob), "t_eval": te, "events": evs.iter().map(|e| e.describe()).collect::<Vec<_>>(), "plain_counters": plain.counters, "ode_log_hash": format!("{:x}", plain.hash)}));
+        }
+    });
+    let _ = Status::Success;
+    (rep, meta)
+}
+fn hash(v: &[f64]) -> u64 {
+    crate::util::hash_f64s(v)
 }
